@@ -3,7 +3,8 @@ from ast import Attribute, Subscript, Load, NodeVisitor
 from .compat import PY2
 from .scope import FuncScope, Flow, SourceScope, ClassScope
 from .name import AssignedName, ImportedName
-from .util import (np, get_expr_end, get_indexes_for_target, visitor, get_any_marked_name)
+from .util import (np, get_expr_end, get_indexes_for_target, visitor, get_any_marked_name,
+                   insert_loc)
 
 if PY2:
     UNSUPPORTED_ASSIGMENTS = Subscript
@@ -277,7 +278,10 @@ class extract_visitor(NodeVisitor):
             for nn, _idx in get_indexes_for_target(g.target, [], []):
                 name = nn  # type: ast.Name # type: ignore[assignment]
                 name.flow = pp  # type: ignore[attr-defined]
-                p.add_name(AssignedName(name.id, np(node), np(name), g.iter))
+                # a comprehension variable is not a local of the enclosing scope
+                cname = AssignedName(name.id, np(node), np(name), g.iter)
+                cname.scope = p.scope
+                insert_loc(p._names, cname)
 
             if g.ifs:
                 for inode in g.ifs:
